@@ -22,3 +22,20 @@ Example ex_c03_print :
   string_unparse false [1;2;3] = [60;48;49;48;50;48;51;62] /\
   name_normalize [47;65;32;35;200] = [47;65;35;50;48;35;50;51;35;99;56].
 Proof. repeat split; vm_compute; reflexivity. Qed.
+(* parse_complete_container: "<</K[1 2 0 R(s)]>>" meets the hypotheses *)
+Definition ex_c03_obj : list N := [60;60;47;75;91;49;32;50;32;48;32;82;40;115;41;93;62;62].
+Definition ex_c03_obj_toks : list ptoken :=
+  [PDictOpen; PName [75]; PArrOpen; PInt 1; PInt 2; PInt 0; PKeyword [82]; PStr [115]; PArrClose; PDictClose].
+Example ex_c03_container :
+  good_chain ex_c03_obj ex_c03_obj_toks [] /\
+  syn_obj (Datatypes.S (length ex_c03_obj_toks)) ex_c03_obj_toks =
+    Some (SyDict [([75], SyArr [SyInt 1; SyRef 2 0; SyStr [115]])], []) /\
+  refs_ok (tl ex_c03_obj_toks) = true /\ opens ex_c03_obj_toks <= 500 /\
+  parse_string ex_c03_obj = PSR_ok (MoDict [([47; 75], MoArr [MoInt 1; MoRef 2 0; MoStr [115]])]) [].
+Proof.
+  split; [|split; [vm_compute; reflexivity|split; [reflexivity|split; [vm_compute; discriminate|vm_compute; reflexivity]]]].
+  unfold ex_c03_obj, ex_c03_obj_toks.
+  repeat (eapply gc_cons; [unfold bytes_ok; repeat (constructor; [reflexivity|]); constructor
+                          | vm_compute; reflexivity | vm_compute; intuition discriminate | ]).
+  apply gc_nil.
+Qed.
